@@ -15,10 +15,14 @@ struct Q { Q(const Q &) = delete; Q(); };
 struct M { M(M &&); M(); };
 struct ProtBaseDtor { protected: ~ProtBaseDtor(); };
 struct DerivedFromProtDtor : ProtBaseDtor { };
+struct PVD { virtual ~PVD() = 0; };
+struct FromPVD : PVD { };
+struct VarBase { virtual void log(const char *) = 0; };
+struct VarDerived : VarBase { void log(const char *, ...); };
 """
 # class -> (implicit default ctor exported, implicit copy ctor exported)
 EXPECT = {"B": (False, False), "D": (True, True), "DF": (True, True), "DO": (True, True), "StillAbstract": (False, False),
-          "P": (False, False), "Q": (False, False), "M": (False, False), "DerivedFromProtDtor": (True, True)}
+          "P": (False, False), "Q": (False, False), "M": (False, False), "DerivedFromProtDtor": (True, True), "PVD": (False, False), "FromPVD": (True, True), "VarDerived": (False, False)}
 
 
 def replay(ctx):
